@@ -25,49 +25,100 @@ def run_passdrive(tool, programs, passes, workers=None):
     return nagarun.parallel_batches(tool, "run", jobs, workers=workers, per_job_timeout=60.0, chunk=8)
 
 
-def _big_stack():
-    for lim in (resource.RLIM_INFINITY, 1 << 30):
+def _limits(cpu_s, mem_bytes=3 << 30):
+    def f():
+        for lim in (resource.RLIM_INFINITY, 1 << 30):
+            try:
+                resource.setrlimit(resource.RLIMIT_STACK, (lim, lim))
+                break
+            except Exception:
+                continue
         try:
-            resource.setrlimit(resource.RLIMIT_STACK, (lim, lim))
-            return
+            resource.setrlimit(resource.RLIMIT_AS, (mem_bytes, mem_bytes))
+            resource.setrlimit(resource.RLIMIT_CPU, (cpu_s, cpu_s + 1))
         except Exception:
-            continue
-
-
-def run_model_parallel(exe, values, workers=None, timeout=1800):
-    """Like vcheck.run_model, split over worker processes; keeps order."""
-    workers = workers or max(1, vcheck.NCPU // 2)
-    if not values:
-        return []
-    parts = [list(range(i, len(values), workers)) for i in range(workers)]
-    out = [None] * len(values)
-
-    def go(idx):
-        if not idx:
-            return
-        inp = "".join(json.dumps(values[i], separators=(",", ":")) + "\n" for i in idx)
-        p = subprocess.run([exe], input=inp, stdout=subprocess.PIPE, stderr=subprocess.PIPE, text=True,
-                           timeout=timeout, preexec_fn=_big_stack)
-        lines = [l for l in p.stdout.splitlines() if l.strip()]
-        if p.returncode != 0 or len(lines) != len(idx):
-            # isolate: run one by one so that a single bad input does not hide the others
-            for i in idx:
-                q = subprocess.run([exe], input=json.dumps(values[i], separators=(",", ":")) + "\n",
-                                   stdout=subprocess.PIPE, stderr=subprocess.PIPE, text=True,
-                                   timeout=timeout, preexec_fn=_big_stack)
-                ls = [l for l in q.stdout.splitlines() if l.strip()]
-                out[i] = json.loads(ls[0]) if q.returncode == 0 and ls else {"ok": False, "err": "tool crashed: " + q.stderr[-300:]}
-            return
-        for i, l in zip(idx, lines):
-            out[i] = json.loads(l)
-
-    with ThreadPoolExecutor(workers) as ex:
-        list(ex.map(go, parts))
-    return out
+            pass
+    return f
 
 
 SENTINEL = 4294967295
 SENTINEL_MODEL = 99999     # Passes/Compact.v `sentinel` (a unary nat in the extracted tool)
+
+
+class Raw:
+    """a JSON value kept as text (serialised once, spliced into many jobs)"""
+    __slots__ = ("text",)
+
+    def __init__(self, text):
+        self.text = text
+
+
+_RAW_CACHE = {}
+
+
+def raw(obj, sentinel=False):
+    """memoised serialisation of a dump; sentinel=True rewrites ^uint32(0) handles (see desentinel)"""
+    key = (id(obj), sentinel)
+    r = _RAW_CACHE.get(key)
+    if r is None:
+        t = json.dumps(obj, separators=(",", ":"))
+        if sentinel and str(SENTINEL) in t:
+            import re
+            t = re.sub(r"(?<![\d.])%d(?![\d.])" % SENTINEL, str(SENTINEL_MODEL), t)
+        r = Raw(t)
+        _RAW_CACHE[key] = (r, obj)      # keep obj alive so that id() stays unique
+        return r
+    return r[0]
+
+
+def encode_job(v):
+    if isinstance(v, dict) and isinstance(v.get("ir"), Raw):
+        rest = {k: x for k, x in v.items() if k != "ir"}
+        return json.dumps(rest, separators=(",", ":"))[:-1] + ',"ir":' + v["ir"].text + "}"
+    return json.dumps(v, separators=(",", ":"))
+
+
+def run_model_parallel(exe, values, workers=None, batch=24, cpu_per_job=6):
+    """Like vcheck.run_model, split over worker processes in small batches; keeps order.
+    Every process is limited in CPU time and memory (not wall time: the machine may be loaded);
+    a job that exceeds them (e.g. the reference interpreter converting an index of 2^31 to a
+    unary nat) yields {"ok": False, "kind": "limit"} and does not disturb the others."""
+    workers = workers or max(1, vcheck.NCPU // 2)
+    if not values:
+        return []
+    out = [None] * len(values)
+    batches = [list(range(i, min(i + batch, len(values)))) for i in range(0, len(values), batch)]
+
+    def call(idx, cpu):
+        inp = "".join(encode_job(values[i]) + "\n" for i in idx)
+        try:
+            p = subprocess.run([exe], input=inp, stdout=subprocess.PIPE, stderr=subprocess.PIPE, text=True,
+                               timeout=3600, preexec_fn=_limits(cpu))
+        except subprocess.TimeoutExpired:
+            return None
+        lines = [l for l in p.stdout.splitlines() if l.strip()]
+        if p.returncode != 0 or len(lines) != len(idx):
+            return None
+        try:
+            return [json.loads(l) for l in lines]
+        except Exception:
+            return None
+
+    def go(idx):
+        r = call(idx, 4 + cpu_per_job * len(idx))
+        if r is not None:
+            for i, x in zip(idx, r):
+                out[i] = x
+            return
+        for i in idx:
+            r1 = call([i], 4 + cpu_per_job)
+            out[i] = r1[0] if r1 else {"ok": False, "kind": "limit", "msg": "interpreter exceeded its CPU/memory limit", "err": "limit"}
+
+    with ThreadPoolExecutor(workers) as ex:
+        list(ex.map(go, batches))
+    return out
+
+
 
 
 def desentinel(x):
@@ -112,3 +163,107 @@ def first_diff(a, b, path=""):
     if a != b:
         return path, a, b
     return None
+
+
+# --------------------------------------------------------------------------
+# inputs for the reference interpreter
+
+INT_POOL = [0, 1, 2, 3, 5, 7, 31, 32, 33, 0x7FFFFFFF, 0x80000000, 0xFFFFFFFF, 0xFFFFFFFE, 100, 0x12345678]
+FLOAT_SMALL = [0x00000000, 0x3F800000, 0x40000000, 0x40400000, 0xBF800000, 0xC0000000, 0x3F000000, 0x3FC00000, 0x40800000]
+FLOAT_POOL = FLOAT_SMALL + [0x80000000, 0x42C80000, 0x4F000000, 0xCF000000, 0x00000001, 0x7F7FFFFF, 0x7F800000, 0xFF800000, 0x7FC00000]
+
+
+class Unsupported(Exception):
+    pass
+
+
+_SK = None
+
+
+def scalar_kinds():
+    """ScalarKind numbers -> value tag, from the regenerated enum table (coq/Gen/IrEnums.v)."""
+    global _SK
+    if _SK is None:
+        import re
+        s = open(os.path.join(vcheck.COQ, "Gen", "IrEnums.v")).read()
+        out = {}
+        for m in re.finditer(r'\("(\w+)", \[(.*?)\]\)', s, re.S):
+            out[m.group(1)] = {name: int(v) for v, name in re.findall(r'\((-?\d+), "(\w+)"\)', m.group(2))}
+        _SK = out
+    return _SK
+
+
+def gen_scalar(s, rng, mode):
+    e = scalar_kinds()["ScalarKind"]
+    k = {e["ScalarSint"]: "i", e["ScalarUint"]: "u", e["ScalarFloat"]: "f", e["ScalarBool"]: "b"}.get(s["Kind"])
+    if k is None or (k != "b" and s["Width"] != 4):
+        raise Unsupported("scalar")
+    if k == "b":
+        return {"b": bool(rng.below(2))}
+    if k == "f":
+        return {"f": rng.choice(FLOAT_SMALL if mode == "small" else FLOAT_POOL)}
+    if mode == "small" or rng.below(8) != 0:
+        return {k: rng.below(8)}
+    return {k: rng.choice(INT_POOL)}
+
+
+def gen_value(types, th, rng, mode, runtime_len=3):
+    t = types[th]["Inner"]
+    k = t["_t"]
+    if k == "ScalarType":
+        return gen_scalar(t, rng, mode)
+    if k == "AtomicType":
+        return gen_scalar(t["Scalar"], rng, mode)
+    if k == "VectorType":
+        return {"vec": [gen_scalar(t["Scalar"], rng, mode) for _ in range(t["Size"])]}
+    if k == "MatrixType":
+        return {"mat": [{"vec": [gen_scalar(t["Scalar"], rng, "small") for _ in range(t["Rows"])]} for _ in range(t["Columns"])]}
+    if k == "ArrayType":
+        n = t["Size"]["Constant"]
+        if n is None:
+            n = runtime_len
+        if n > 4096:
+            raise Unsupported("large array")
+        return {"arr": [gen_value(types, t["Base"], rng, mode, runtime_len) for _ in range(n)]}
+    if k == "StructType":
+        return {"st": [gen_value(types, m["Type"], rng, mode, runtime_len) for m in t["Members"]]}
+    raise Unsupported("type " + k)
+
+
+def make_inputs(ir, ep, rng, mode):
+    """-> (globals by name: value|None, args) for one entry point of dump `ir`"""
+    sp = scalar_kinds()["AddressSpace"]
+    gl = {}
+    for g in ir["GlobalVariables"]:
+        if g["Space"] in (sp["SpaceStorage"], sp["SpaceUniform"]):
+            gl[g["Name"]] = gen_value(ir["Types"], g["Type"], rng, mode)
+        else:
+            gl[g["Name"]] = None
+    args = [gen_value(ir["Types"], a["Type"], rng, "small") for a in ep["Function"]["Arguments"]]
+    return gl, args
+
+
+def run_job(ir, epi, gl, args, fuel, lenient):
+    return {"pass": "run", "ir": raw(ir), "ep": epi, "fuel": fuel, "lenient": lenient, "args": args,
+            "globals": [gl.get(g["Name"]) for g in ir["GlobalVariables"]]}
+
+
+def named_globals(ir, res):
+    return {g["Name"]: v for g, v in zip(ir["GlobalVariables"], res.get("globals", []))}
+
+
+# statement / expression kinds of the dump that IR/Decode.v keeps only generically, dropping
+# handle fields that the compaction passes use as roots: modules containing them are outside
+# the fragment of the model tie
+OUT_OF_FRAGMENT_TAGS = ("StmtRayQuery", "StmtSubgroupGather", "StmtSubgroupBallot", "StmtSubgroupCollectiveOperation",
+                        "ExprSubgroupOperationResult", "ExprRayQueryGetIntersection")
+
+
+def out_of_model_fragment(ir):
+    txt = json.dumps(ir)
+    if any(('"_t": "%s"' % t) in txt for t in OUT_OF_FRAGMENT_TAGS):
+        return True
+    for ep in ir["EntryPoints"]:
+        if ep.get("TaskPayload") is not None or ep.get("MeshInfo") is not None:
+            return True
+    return False
